@@ -648,3 +648,46 @@ func init() {
 }
 
 func itoa2(n int) string { return fmt.Sprintf("%d", n) }
+
+func init() {
+	registerProp(&PropSpec{
+		ID: "C08",
+		Units: func(tier string, seed int64, sh *Shared) []Unit {
+			shapes := []string{"(and b0 (or KB0 b1))", "(if (> i0 KI0) (+ i1 (+ 1 2)) (q i2))", "(and (p b0) (> (+ 1 2) i0) (or b1 (and b2 b3)))", "(or (and b0 b1) (and (= i0 3) true))"}
+			if tier == "thorough" {
+				shapes = append(shapes, shapeFamily(1, leavesStandard, false, "BI")...)
+			}
+			directives := []string{"", ";;;; optimize: false\n", ";;;; reordering: false, constant_folding: true\n", ";; plain comment\n;;;; fast_evaluation:false\n;;;; reduce_nesting : true\n",
+				";;;; optimize: true\n;;;;constant_folding:false\n"}
+			bad := []string{";;;; reordering: bogus\n", ";;;; unknown_option: true\n", ";;;; reordering\n"}
+			var units []Unit
+			for _, s := range shapes {
+				for _, opts := range []string{"1111", "0000", "0101"} {
+					for _, d := range directives {
+						units = append(units, Unit{"VerifC08", []string{d + s, "frozen", opts, s}})
+					}
+				}
+				for _, d := range bad {
+					units = append(units, Unit{"VerifC08", []string{d + s, "frozen", "1111", s}})
+				}
+				for _, m := range []string{s[:len(s)-1], s + ")", "(" + s, "(nosuchop " + s + ")", strings.Replace(s, "b0", "undefined_name", 1), ""} {
+					if m != "" {
+						units = append(units, Unit{"VerifC08", []string{m, "frozen", "1111", s}})
+					}
+				}
+				units = append(units, Unit{"VerifC08", []string{s, "order", "1111", s}})
+				units = append(units, Unit{"VerifC08", []string{";;;; reordering: false\n" + s, "order", "0101", s}})
+			}
+			units = append(units, Unit{"VerifC08Copy", []string{"copy"}}, Unit{"VerifC08Copy", []string{"extend"}})
+			return units
+		},
+		Reach: []string{"compiled-frozen", "compile-ok", "compile-error", "recompiled", "copied"},
+		Bounds: func(tier string) map[string]interface{} {
+			return map[string]interface{}{"config": "2-4 entries per map (symbolic constant values and costs), StatelessOperators with spare capacity", "sources": "4 shapes (+ all shapes ≤1 internal node thorough) × {no directive, 4 directive texts, 3 invalid directives, 5 malformed variants}",
+				"map_orders": "every permutation of maps with ≤3 entries and every rotation of larger ones, for each of the five config maps, in the second compilation"}
+		},
+		Rule:        "one unit per (source text, variant, options); a state is one symbolic path (map iteration orders are explicit nondeterministic choices)",
+		Assumptions: []string{"interleavings are not explored: concurrent Compile calls only read the shared Config (shown by the frozen-heap monitor), and concurrent map reads are race-free", "user data stored inside the config (constant values, operator closures) is shared by reference on purpose and is not 'mutable state of the config'"},
+		WallBudget:  shapeBudget,
+	})
+}
